@@ -1010,6 +1010,19 @@ def main(ctx):
         yield (mname, cov, entry, n, "ones")
         yield (mname, cov, entry, n, "ramp")
 
+    # (nx=2 is off the lattice: a density on two points has a one-entry cumulative table and the library raises IndexError)
+    # every grid size 3..48 on a handful of ranges for the xrange=/nx= form (the grid must have exactly nx points ending
+    # exactly at the upper limit: a grid built by stepping instead of dividing gains or loses a point for about one
+    # (range, nx) pair in six), all deviate symbols in one draw
+    sweep_units = [("func-xrange", (a, b, nx), dname, False) for (a, b) in ((0.0, 1.0), (-1.0, 1.0), (10.0, 20.0), (0.0, 2.5), (0.0, 0.3), (1e-3, 7e-3), (-4.5, 4.5))
+                   for nx in range(3, ctx.pick(49, 130)) for dname in list(DENS)[:2]]
+
+    def expand_sweep(u):
+        yield u + (("all",),)
+
+    ctx.lattice("sampler-grid-sweep", sweep_units, one_sampler, expand=expand_sweep, engine="environment",
+                bounds=dict(ranges=[[0, 1], [-1, 1], [10, 20], [0, 2.5], [0, 0.3], [1e-3, 7e-3], [-4.5, 4.5]], nx="3..%d" % (ctx.pick(49, 130) - 1), densities=list(DENS)[:2]))
+
     # long tables tabulated far into a tail (the end of the cumulative table is saturated: its last entries differ by
     # less than an ulp of the total) and deviates in the top few ulps of [0,1]: a normalisation that is not EXACTLY the
     # last cumulative value leaves those deviates beyond the table, and the extrapolation along a flat last interval
